@@ -1,7 +1,7 @@
 """C20 - Operands and targets are evaluated left-to-right exactly once (DESIGN 7/C20)."""
 import json, os, sys, itertools
 import cybuild
-import C20_ccall as CC
+from props import C20_ccall as CC
 
 TITLE = "Operands and targets are evaluated left-to-right exactly once"
 EXTRACTS = ["EvalOrder"]
@@ -898,53 +898,48 @@ def classify(model, s, base_out):
     return "order_differs_from_cpython"
 
 
-CYONLY = r"""
-import sys, json, os, io
-import pyload; pyload.install()
-spec = json.load(sys.stdin)
-from Cython.Compiler import Main, Options
-pyload.assert_sources()
-directives = dict(Options.get_directive_defaults()); directives["language_level"] = 3
-res = []
-for i, src in enumerate(spec["sources"]):
-    path = os.path.join(spec["dir"], "c20rej_%d.pyx" % i)
-    with open(path, "w") as f:
-        f.write(src)
-    opts = Main.CompilationOptions(Main.default_options, compiler_directives=directives, output_file=path[:-4] + ".c")
-    err = io.StringIO(); old = sys.stderr; sys.stderr = err
-    ok = False; crash = None
-    try:
-        try:
-            r = Main.compile(path, opts); ok = (r.num_errors == 0)
-        except BaseException as e:
-            crash = repr(e)[:300]
-    finally:
-        sys.stderr = old
-    res.append({"ok": ok, "err": err.getvalue()[-1500:], "crash": crash})
-print(json.dumps(res))
-"""
-
-
-def cy_only(workdir, sources):
-    """translate every source on its own with the compiler under test (no C compiler): [{ok, err, crash}]"""
-    if not sources:
-        return []
-    r = cybuild.run_script(CYONLY, workdir, {"sources": sources, "dir": workdir}, timeout=1500, name="c20_cyonly.py")
-    if not isinstance(r["json"], list):
-        raise RuntimeError("cy_only failed rc=%s %s" % (r["rc"], r["err"][-1500:]))
-    return r["json"]
-
-
-def check_stmts(ctx, stmts, tag):
+def check_stmts(ctx, stmts, tag, front_modules=()):
+    """front_modules: further <name>.pyx files (already written) for the front-end worker that runs while
+    the modules build; returns the worker's result"""
     model = ctx.model("evalorder")
     flags = asis_flags()
     m_asis = model.batch(model_lines(stmts, flags))
     m_ref = model.batch(["ref " + " ".join(t_stmt(s)) for s in stmts])
-    # C calls the model of the compiler rejects (compile error): left out of the compiled modules, the real
-    # compiler is asked about each of them separately
+    # C calls the model of the compiler rejects (compile error): left out of the compiled modules; the real
+    # compiler front end is asked about them (one module, the error lines are attributed to the functions)
     rej = [i for i, ma in enumerate(m_asis) if ma.startswith("REJECT")]
-    impl, orac = build_and_run(ctx.workdir, stmts, tag=tag, jobs=6, chunk=100, skip=rej)
-    rej_res = dict(zip(rej, cy_only(ctx.workdir, [module_source([stmts[i]], i) for i in rej])))
+    os.makedirs(ctx.workdir, exist_ok=True)
+    rej_name = tag + "_rej"
+    rej_range = {}
+    if rej:
+        L = ["# cython: language_level=3", "from c20rt import O, T, F, U, D, I, ev, LOG", ""] + CC.PRELUDE_CY.split("\n")
+        for i in rej:
+            lo = len(L) + 1
+            L += r_func("c%d" % i, stmts[i]).split("\n")
+            rej_range[i] = (lo, len(L))
+        with open(os.path.join(ctx.workdir, rej_name + ".pyx"), "w") as f:
+            f.write("\n".join(L) + "\n")
+    import threading
+    front = {}
+    def run_front():
+        try:
+            front["res"] = CC.front_run(ctx.workdir, list(front_modules) + ([rej_name] if rej else []))
+        except BaseException as e:
+            front["exc"] = e
+    th = threading.Thread(target=run_front)
+    th.start()
+    try:
+        impl, orac = build_and_run(ctx.workdir, stmts, tag=tag, jobs=6, chunk=100, skip=rej)
+    finally:
+        th.join()
+    if "exc" in front:
+        raise front["exc"]
+    rej_errs = front["res"].get(rej_name + "#err", [])
+    rej_res = {}
+    for i in rej:
+        lo, hi = rej_range[i]
+        msgs = [m for ln, m in rej_errs if lo <= ln <= hi]
+        rej_res[i] = {"ok": not msgs, "err": " / ".join(msgs)}
     nskip = 0
     ncrash = []
     nalt = []
@@ -962,7 +957,7 @@ def check_stmts(ctx, stmts, tag):
             # compare; reported as a note, see proposed_fixes/C20-ccall_arguments_cut_after_leading_temp)
             ctx.case("ccall-rejected", inp, sig=src)
             rr = rej_res[i]
-            if rr["ok"] or rr["crash"] or not ("wrong number of arguments" in rr["err"] or "missing argument" in rr["err"]):
+            if rr["ok"] or not ("wrong number of arguments" in rr["err"] or "missing argument" in rr["err"]):
                 ctx.corr_break("model-rejects-vs-compiler", inp, rr, ma)
             f2 = list(flags); f2[5] = 1
             alt = parse_model(model.batch(model_lines([s], f2))[0])
@@ -1027,6 +1022,7 @@ def check_stmts(ctx, stmts, tag):
                  % (tag, len(nrej), nrej[0][:200]))
     if nskip:
         ctx.note("%s: %d generated statements rejected by CPython itself (skipped)" % (tag, nskip))
+    return front["res"]
 
 
 # --------------------------------------------------------------------------------------
@@ -1048,18 +1044,39 @@ def tie_class(fname, npos, perm, kinds):
     return "ccall_temps_not_in_call_order"
 
 
-def check_ccmap(ctx):
+class Recorder(object):
+    """stands in for ctx in the side thread (own PRNG; verdict / accounting calls are replayed in the main thread)"""
+    def __init__(self, ctx, rng):
+        self.ctx, self.rng, self.tier, self.workdir, self.calls = ctx, rng, ctx.tier, ctx.workdir, []
+    def model(self, name):
+        return self.ctx.model(name)
+    def __getattr__(self, name):
+        if name in ("case", "count", "fail", "corr_break", "note"):
+            return lambda *a, **k: self.calls.append((name, a, k))
+        raise AttributeError(name)
+    def replay(self):
+        for name, a, k in self.calls:
+            getattr(self.ctx, name)(*a, **k)
+        self.calls = []
+
+
+GAPS = [("co", "co(T(1), c=T(2))", "ccmap 1 0 1 4 2 0", "none"), ("co", "co(T(1), d=T(2), b=T(3))", "ccmap 1 0 1 4 3,1 00", "none"),
+        ("pf", "pf(T(1), c=T(2))", "ccmap 1 0 1 3 2 0", "self"),
+        ("pf", "pf(T(1), T(2))", "ccmap 1 0 2 3 - 00", "nocall"), ("cf", "cf(T(1), T(2), T(3), T(4))", "ccmap 1 0 4 4 - 0000", "nocall")]
+
+
+def prepare_ccmap(ctx):
+    """writes the tie modules (one call per source line; 40 calls per function, 400 per module)"""
     quick = ctx.tier == "quick"
-    model = ctx.model("evalorder")
     g = Gen(ctx.rng)
     cases = CC.tie_cases(g, quick)
-    # one call per source line; 40 calls per function, 400 per module
-    mods, where = [], []
+    mods, where, all_asts = [], [], []
     per_mod = 400
+    hdr = ["# cython: language_level=3", "from c20rt import O, T, F, U, D, I, ev, LOG", ""] + CC.PRELUDE_CY.split("\n")
+    os.makedirs(ctx.workdir, exist_ok=True)
     for mi in range(0, len(cases), per_mod):
         name = "c20tie_%d" % (mi // per_mod)
-        L = ["# cython: language_level=3", "from c20rt import O, T, F, U, D, I, ev, LOG", ""] + CC.PRELUDE_CY.split("\n")
-        asts = []
+        L = list(hdr)
         for j, (fname, npos, perm, kinds) in enumerate(cases[mi:mi + per_mod]):
             if j % 40 == 0:
                 L.append("def t%d(x, y, z):" % (j // 40))
@@ -1067,29 +1084,35 @@ def check_ccmap(ctx):
             call = CC.mk_call(g, fname, npos, perm, kinds, "name")
             L.append("    r = " + r_expr(call))
             where.append((name, len(L)))
-            asts.append(call)
-        mods.append((name, "\n".join(L) + "\n", asts))
-    os.makedirs(ctx.workdir, exist_ok=True)
-    for name, src, _ in mods:
+            all_asts.append(call)
+        mods.append(name)
         with open(os.path.join(ctx.workdir, name + ".pyx"), "w") as f:
-            f.write(src)
-    r = cybuild.run_script(CC.FRONT, ctx.workdir, {"modules": [m[0] for m in mods], "dir": ctx.workdir},
-                           timeout=1500, name="c20_front.py")
-    real = r["json"]
-    if not isinstance(real, dict):
-        raise RuntimeError("front-end tie failed rc=%s %s" % (r["rc"], r["err"][-2000:]))
+            f.write("\n".join(L) + "\n")
+    # calls with a gap (a declared parameter before a given keyword is omitted): compile error for cdef
+    # functions ("C function call is missing argument"), Python call of the wrapper for cpdef functions
+    L = list(hdr) + ["def t0(x, y, z):"]
+    glines = []
+    for x in GAPS:
+        L.append("    r = " + x[1]); glines.append(len(L))
+    with open(os.path.join(ctx.workdir, "c20tie_gap.pyx"), "w") as f:
+        f.write("\n".join(L) + "\n")
+    mods.append("c20tie_gap")
+    return dict(cases=cases, where=where, asts=all_asts, modules=mods, glines=glines)
+
+
+def judge_ccmap(ctx, prep, real):
+    model = ctx.model("evalorder")
+    cases, where, all_asts = prep["cases"], prep["where"], prep["asts"]
     if real.get("crash"):
         ctx.note("front-end tie: compiler crashed in %s" % real["crash"][:2])
-    all_asts = [a for m in mods for a in m[2]]
     bs = model.batch(["bsimple " + " ".join(t_expr(a[1] if a[0] == "pos" else a[2])) for call in all_asts for a in call[3]])
     pos = 0
     lines = []
     bits_of = []
     for call in all_asts:
         n = len(call[3])
-        bits = [b.split() for b in bs[pos:pos + n]]
+        bits_of.append([b.split() for b in bs[pos:pos + n]])
         pos += n
-        bits_of.append(bits)
     keep = 1 if CCKEEP_FIXED else 0
     for (fname, npos, perm, kinds), bits in zip(cases, bits_of):
         P = CC.CALLEES[fname]["params"]
@@ -1097,7 +1120,6 @@ def check_ccmap(ctx):
         lines.append("ccmap 1 %d %d %d %s %s" % (keep, npos, len(P), ",".join(str(P.index(x)) for x in perm) or "-",
                                                   "".join(use) or "-"))
     mres = model.batch(lines)
-    nrej = 0
     for idx, ((fname, npos, perm, kinds), (mname, line), bits, mr) in enumerate(zip(cases, where, bits_of, mres)):
         call = all_asts[idx]
         src = r_expr(call)
@@ -1109,8 +1131,9 @@ def check_ccmap(ctx):
             continue
         rec = recs[0]
         # (a) the is_simple() verdicts before type analysis = bsimple of the model
-        if [str(x) for x in rec["simple"]] != [b[0] for b in bits]:
-            ctx.corr_break("bsimple-model-vs-real", inp, rec["simple"], [b[0] for b in bits])
+        want_bits = [(b[1] if CCSIMPLE_FIXED else b[0]) for b in bits]
+        if not CCSIMPLE_FIXED and [str(x) for x in rec["simple"]] != want_bits:
+            ctx.corr_break("bsimple-model-vs-real", inp, rec["simple"], want_bits)
         # (b) temps and argument list = ccmap of the model
         if rec["res"] == "ok":
             got = "OK %s | %s" % (",".join(map(str, rec["temps"])), ",".join(map(str, rec["args"])))
@@ -1133,22 +1156,10 @@ def check_ccmap(ctx):
             ctx.fail(tie_class(fname, npos, perm, kinds), inp, {"temps": rec["temps"], "args": rec["args"]},
                      {"args": want, "non-simple arguments evaluated in call order": True},
                      note="model: %s" % mr)
-    # calls with a gap (a declared parameter before a given keyword is omitted): compile error for cdef
-    # functions ("C function call is missing argument"), Python call of the wrapper for cpdef functions
-    gaps = [("co", "co(T(1), c=T(2))", "ccmap 1 0 1 4 2 0", "none"), ("co", "co(T(1), d=T(2), b=T(3))", "ccmap 1 0 1 4 3,1 00", "none"),
-            ("pf", "pf(T(1), T(2))", "ccmap 1 0 2 3 - 00", "nocall"), ("cf", "cf(T(1), T(2), T(3), T(4))", "ccmap 1 0 4 4 - 0000", "nocall")]
-    ctx.count("ccmap/gap-or-positional", len(gaps), distinct_sigs=[x[1] for x in gaps])
-    gm = model.batch([x[2] for x in gaps])
-    name = "c20tie_gap"
-    L = ["# cython: language_level=3", "from c20rt import O, T, F, U, D, I, ev, LOG", ""] + CC.PRELUDE_CY.split("\n") + ["def t0(x, y, z):"]
-    glines = []
-    for x in gaps:
-        L.append("    r = " + x[1]); glines.append(len(L))
-    with open(os.path.join(ctx.workdir, name + ".pyx"), "w") as f:
-        f.write("\n".join(L) + "\n")
-    r = cybuild.run_script(CC.FRONT, ctx.workdir, {"modules": [name], "dir": ctx.workdir}, timeout=600, name="c20_front.py")
-    rg = (r["json"] or {}).get(name, {})
-    for x, ln, mr in zip(gaps, glines, gm):
+    ctx.count("ccmap/gap-or-positional", len(GAPS), distinct_sigs=[x[1] for x in GAPS])
+    gm = model.batch([x[2] for x in GAPS])
+    rg = real.get("c20tie_gap", {})
+    for x, ln, mr in zip(GAPS, prep["glines"], gm):
         recs = rg.get(str(ln))
         if x[3] == "nocall":
             # purely positional calls are SimpleCallNodes from the start: the mapping is not involved
@@ -1324,30 +1335,53 @@ def run(ctx):
     # calls the compiler maps to C-level argument lists: every shape of positional / keyword arguments
     gcc_ = Gen(ctx.rng); gcc_.k = 500
     small = small + CC.systematic_calls(gcc_, quick)
-    # the front-end tie and the builtin module run while the big modules build
-    import threading
+    if not quick:
+        ctx.extra.setdefault("exhaustive_domains", []).append(
+            "call argument-kind patterns (positional/keyword/*/**) of length <= 3, plain and method calls: all %d"
+            % (2 * sum(1 for n in range(4) for p in itertools.product("pskd", repeat=n) if valid_args(p))))
+        ctx.extra["exhaustive_domains"].append(
+            "C function calls: every (positional count, keyword permutation) without gap for the callees %s, "
+            "each with all-non-simple arguments (compiled) and with every non-simple/simple pattern (front-end tie): %d shapes"
+            % (", ".join(sorted(CC.CALLEES)), sum(len(list(CC.call_shapes(f))) for f in CC.CALLEES)))
+    nrand = 75 if quick else 2000
+    rnd = gen_random(ctx.rng, nrand // 3, 2) + gen_random(ctx.rng, nrand // 3, 3) + gen_random(ctx.rng, nrand - 2 * (nrand // 3), 4)
+    prep = prepare_ccmap(ctx)
+    # the builtin module builds and runs in a side thread (own PRNG, verdict calls replayed afterwards)
+    import threading, random
     side_err = []
+    rec = Recorder(ctx, random.Random(ctx.rng.getrandbits(64)))
     def side():
         try:
-            check_ccmap(ctx)
-            check_builtins(ctx)
+            check_builtins(rec)
         except BaseException as e:     # re-raised in the main thread
             side_err.append(e)
     th = threading.Thread(target=side)
     th.start()
     try:
-        check_stmts(ctx, small, "c20e")
+        if quick:
+            # one build phase (every compiler process pays the start-up of the compiler from .py sources)
+            real = check_stmts(ctx, small + rnd, "c20q", front_modules=prep["modules"])
+        else:
+            real = check_stmts(ctx, small, "c20e", front_modules=prep["modules"])
+            check_stmts(ctx, rnd, "c20r")
     finally:
         th.join()
+    judge_ccmap(ctx, prep, real)
+    rec.replay()
     if side_err:
         raise side_err[0]
-    if not quick:
-        ctx.extra.setdefault("exhaustive_domains", []).append(
-            "call argument-kind patterns (positional/keyword/*/**) of length <= 3, plain and method calls: all %d"
-            % (2 * sum(1 for n in range(4) for p in itertools.product("pskd", repeat=n) if valid_args(p))))
-    nrand = 75 if quick else 2000
-    rnd = gen_random(ctx.rng, nrand // 3, 2) + gen_random(ctx.rng, nrand // 3, 3) + gen_random(ctx.rng, nrand - 2 * (nrand // 3), 4)
-    check_stmts(ctx, rnd, "c20r")
+    if os.environ.get("C20_DEBUG"):
+        from collections import Counter
+        print("FAIL CLASSES", Counter(f["class"] for f in ctx.prop_failures), file=sys.stderr)
+        print("CORR PAIRS", Counter(b["pair"] for b in ctx.corr_breaks), file=sys.stderr)
+        seen = set()
+        for f in ctx.prop_failures:
+            if f["class"] not in seen:
+                seen.add(f["class"]); print("FAIL", f["class"], json.dumps(f["input"])[:400], "\n   obs", str(f["observed"])[:500], "\n   exp", str(f["expected"])[:500], file=sys.stderr)
+        seen = set()
+        for b in ctx.corr_breaks:
+            if b["pair"] not in seen:
+                seen.add(b["pair"]); print("CORR", b["pair"], json.dumps(b["input"])[:400], "\n   impl", str(b["impl"])[:600], "\n   model", str(b["model"])[:600], file=sys.stderr)
 
 
 def replay(ctx, obj):
